@@ -179,18 +179,26 @@ def run(ctx):
             return Poly.var(self.nm)
 
     fld = Opaque("field")
-    for inDim, want_t in ((2, 1), (3, 0)):
-        obj = XObj(wf, dict(weakForms=SimpleNamespace(field=fld, thickness=t, computeK=Form("K"), computeC=Form("C"), computeM=Form("M"), computeF=Form("F")), mesh=SimpleNamespace(inDim=inDim, groupElem="g"), _verbosity=False))
+    # the assembled (K, C, M, F) are memoised by the simulation and the scheme setters do not invalidate them: the element
+    # system holds every form that was given WHATEVER time scheme is selected when it is built
+    from ..xeval import EnumVal
+
+    ALGO = "EasyFEA.Simulations.Solvers.AlgoType"
+    amem = repo.enum_members(ALGO)
+    for inDim, want_t, algo in ((2, 1, "elliptic"), (3, 0, "elliptic"), (2, 1, "parabolic"), (2, 1, "newmark")):
+        if algo != "elliptic":
+            r3.instance(fn=f.qualname)
+        obj = XObj(wf, dict(weakForms=SimpleNamespace(field=fld, thickness=t, computeK=Form("K"), computeC=Form("C"), computeM=Form("M"), computeF=Form("F")), mesh=SimpleNamespace(inDim=inDim, groupElem="g"), _verbosity=False, algo=EnumVal(repo.cls(ALGO), algo, amem[algo])))
         I = Interp(repo, extra_builtins={"Tic": lambda *a, **k: Sink()})
         out = I.call_function(f, [Opaque("pt")], self_obj=obj)
         tup = out.get("g") if isinstance(out, dict) else None
-        ok = tup is not None and len(tup) == 4 and all(is_zero(Poly.of(tup[i]) - Poly.var("KCMF"[i]) * (t**want_t)) for i in range(4))
+        ok = tup is not None and len(tup) == 4 and all(tup[i] is not None and is_zero(Poly.of(tup[i]) - Poly.var("KCMF"[i]) * (t**want_t)) for i in range(4))
         if ok:
-            r3.ok(f"inDim={inDim}: (K, C, M, F) * thickness^{want_t}")
+            r3.ok(f"inDim={inDim}, {algo}: (K, C, M, F) * thickness^{want_t}")
         else:
-            r3.fail(f.qualname, f"slots:inDim{inDim}", f.file, f.lineno, "WeakForms.Construct_local_matrix_system", f"inDim={inDim}: slots are {tup!r}; expected (K, C, M, F) each times thickness^{want_t}")
+            r3.fail(f.qualname, f"slots:inDim{inDim}:{algo}", f.file, f.lineno, "WeakForms.Construct_local_matrix_system", f"inDim={inDim}, time scheme {algo}: slots are {tup!r}; expected (K, C, M, F) each times thickness^{want_t} (the assembled matrices are kept across a change of scheme: a form left out here is missing from the transient that follows a static solve)")
     # None forms stay None
-    obj = XObj(wf, dict(weakForms=SimpleNamespace(field=fld, thickness=t, computeK=Form("K"), computeC=None, computeM=None, computeF=None), mesh=SimpleNamespace(inDim=2, groupElem="g"), _verbosity=False))
+    obj = XObj(wf, dict(weakForms=SimpleNamespace(field=fld, thickness=t, computeK=Form("K"), computeC=None, computeM=None, computeF=None), mesh=SimpleNamespace(inDim=2, groupElem="g"), _verbosity=False, algo=EnumVal(repo.cls(ALGO), "elliptic", amem["elliptic"])))
     I = Interp(repo, extra_builtins={"Tic": lambda *a, **k: Sink()})
     out = I.call_function(f, [Opaque("pt")], self_obj=obj)
     r3.instance(fn=f.qualname)
